@@ -63,15 +63,20 @@ Proof.
 Qed.
 
 (* mpt_command_reserve on an existing table *)
+Lemma reserve_max_table tab mxv tag tab' k id :
+  reserve_max true tab mxv tag = Some (tab', k, id) ->
+  tab' = tactive tab ++ [mkwe id (Some tag)] /\ k = length (tactive tab).
+Proof.
+  unfold reserve_max. destruct (N.eqb_spec (mxv) 0) as [|Hmx]; [discriminate|]. cbn [negb].
+  destruct (compact_all tab) as (tab1 & used & -> & Hbase & Hused). rewrite Hbase.
+  destruct (if (mxv <=? _)%N then _ else _) as [id0|]; [|discriminate].
+  intros E; inversion E; subst. split; reflexivity.
+Qed.
+
 Lemma reserve_table tab idl tag tab' k id :
   reserve true tab idl tag = Some (tab', k, id) ->
   tab' = tactive tab ++ [mkwe id (Some tag)] /\ k = length (tactive tab).
-Proof.
-  unfold reserve. destruct (N.eqb_spec (maxid idl) 0) as [|Hmx]; [discriminate|]. cbn [negb].
-  destruct (compact_all tab) as (tab1 & used & -> & Hbase & Hused). rewrite Hbase.
-  destruct (if (maxid idl <=? _)%N then _ else _) as [id0|]; [|discriminate].
-  intros E; inversion E; subst. split; reflexivity.
-Qed.
+Proof. unfold reserve. apply reserve_max_table. Qed.
 
 (* the layout that breaks a compaction which forgets to clear the slot it moved from: two free slots in front of
    three used ones *)
